@@ -80,7 +80,7 @@ class VThread:
     def _boot(self):
         self.ident = _rt.get_ident()
         self.sem.acquire()
-        if self.sched.opcode_funcs:
+        if self.sched.opcode_funcs or self.sched.line_funcs:
             sys.settrace(self.sched._tracer)
         try:
             self.result = self.run()
@@ -119,6 +119,8 @@ class Sched:
         self.now = 0.0
         self.opcode_funcs = set()
         self.opcode_budget = 0
+        self.line_funcs = set()          # (function name) -> every source line is a yield point
+        self.line_budget = 0
         self.log_ops = False
         self.on_step = None
         self.idle_bias = 0.03
@@ -288,10 +290,19 @@ class Sched:
 
     # ---- opcode-level preemption inside named functions
     def _tracer(self, frame, event, arg):
-        if event == "call" and frame.f_code.co_name in self.opcode_funcs and "/bromelia/" in frame.f_code.co_filename:
-            frame.f_trace_opcodes = True
-            return self._optrace
+        if event == "call" and "/bromelia/" in frame.f_code.co_filename:
+            if frame.f_code.co_name in self.opcode_funcs:
+                frame.f_trace_opcodes = True
+                return self._optrace
+            if frame.f_code.co_name in self.line_funcs:
+                return self._linetrace
         return None
+
+    def _linetrace(self, frame, event, arg):
+        if event == "line" and self.line_budget > 0:
+            self.line_budget -= 1
+            self.yield_op(("op", None, "line"), write=False)
+        return self._linetrace
 
     def _optrace(self, frame, event, arg):
         if event == "opcode" and self.opcode_budget > 0:
